@@ -169,6 +169,25 @@ _check_flows = Contract(
     notes='reachability_check is the abstract pure function reach(); Status singletons modelled as 0/1/2',
 )
 
+def _replay_ggf(inp):
+    """names used directly in a class body / function body / comprehension, with a module-level binding of the same
+    name only AFTER the use: which binding does goto consult?"""
+    from pyvc.replay import run_real
+    import jedi
+    code = inp['code']
+    line, col = inp['pos']
+    out = run_real(lambda: [(n.module_name, n.line) for n in jedi.Script(code).goto(line, col)])
+    return {'USE_LINE': line, 'LATER_OK': inp['later_ok']}, out
+
+
+_GGF_LIB = [
+    # class body: executes in place, a later module binding is not visible (Python takes the builtin)
+    {'code': 'class Config:\n    kind = type\ntype = Config.kind\n', 'pos': (2, 11), 'later_ok': False},
+    {'code': 'class Config:\n    size = len\n\nlen = 3\n', 'pos': (2, 11), 'later_ok': False},
+    # function body: runs later, the later module binding IS the one Python consults
+    {'code': 'def f():\n    return size\nsize = 3\n', 'pos': (2, 11), 'later_ok': True},
+]
+
 _get_global_filters = [
     Contract(
         id='C03.get_global_filters[%d]' % d, prop='C03',
@@ -185,6 +204,9 @@ _get_global_filters = [
         unroll={0: d + 1, 1: d + 1},
         ensures=['result == global_filters_spec(CH, until_position, origin_scope, '
                  'CH[0].inference_state.builtins_module.get_filters()[0])'],
+        witness={}, replay=_replay_ggf, concrete_only=True, witness_library=_GGF_LIB,
+        concrete_ensures=['implies(not LATER_OK, all(not (m == "__main__" and l is not None and l > USE_LINE) for m, l in result))',
+                          'implies(LATER_OK, any(m == "__main__" and l is not None and l > USE_LINE for m, l in result))'],
     ) for d in range(1, 4)]
 for _c, _d in zip(_get_global_filters, range(1, 4)):
     _c.shape = {'CH': _d}
